@@ -380,7 +380,17 @@ def r6_readonly(ctx: Ctx) -> None:
         if isinstance(key, ast.Constant) and key.value == 'description':
             g = afl.cfg.guard_literals(s)
             is_target = any(truth and t_.replace(' ', '') in ("field_name=='description'",) for t_, truth in g)
-        ctx.check(is_target and root_name(t) == at.params[0], 'C07.R6', at, f'transform-store:{src(key)[:20]}', f'writes {src(t)[:40]} (transform target / _raw_ companion)',
+        root_ok = root_name(t) == at.params[0]
+        if not root_ok and isinstance(t.value, ast.Name):
+            # the destination dict may be chosen first (`target = transaction` / `target = transaction['field']`): every definition must be the
+            # transaction or its 'field' dict; the key is then the transform's field name or 'description'
+            ds = [afl.cfg.stmt[d] for d in afl.cfg.defs_reaching(s, t.value.id) if d != 'param']
+            root_ok = bool(ds) and all(isinstance(d_, ast.Assign) and src(d_.value) in (at.params[0], f"{at.params[0]}['field']") for d_ in ds)
+            if root_ok and isinstance(key, ast.Name):
+                kds = [afl.cfg.stmt[d] for d in afl.cfg.defs_reaching(s, key.id) if d != 'param']
+                is_target = bool(kds) and all(isinstance(d_, ast.Assign) and ('name:field_path' in afl.atoms(d_.value, d_) or (isinstance(d_.value, ast.Constant) and d_.value.value == 'description'))
+                                             for d_ in kds)
+        ctx.check(is_target and root_ok, 'C07.R6', at, f'transform-store:{src(key)[:20]}', f'writes {src(t)[:40]} (transform target / _raw_ companion)',
                   f'{src(s)[:60]!r}: writes a transaction key that is not the transform target', s)
     # the _raw_ companion is written once (original kept)
     raw = [s for s in stores if 'raw_key' in src(s.targets[0])]
